@@ -1,1 +1,586 @@
-// placeholder
+//! Ground-truth model of a generated Rust program and its rendering to source text.
+//! Monitors compare typeshare's output with this model, never with typeshare's own IR.
+use crate::rng::Rng;
+
+#[derive(Clone, Debug, PartialEq)]
+pub enum Ty {
+    /// bool char String &str i8.. I54 U53 f32 f64 (and the unsupported u64 i64 usize isize for C08)
+    Prim(&'static str),
+    Unit,
+    Vec(Box<Ty>),
+    Array(Box<Ty>, usize),
+    /// `&[T]`
+    Slice(Box<Ty>),
+    Opt(Box<Ty>),
+    Map(Box<Ty>, Box<Ty>),
+    /// Box Arc Rc Cow Cell RefCell Mutex RwLock Weak
+    Wrap(&'static str, Box<Ty>),
+    /// `&'static T`
+    Ref(Box<Ty>),
+    /// user type by Rust identifier, with generic arguments
+    User(String, Vec<Ty>),
+    /// generic parameter of the enclosing item
+    Param(String),
+    Tuple(Vec<Ty>),
+    DateTime,
+    /// verbatim text (hostile forms for C07)
+    Raw(String),
+}
+
+pub const WRAPPERS: [&str; 9] = ["Box", "Arc", "Rc", "Cow", "Cell", "RefCell", "Mutex", "RwLock", "Weak"];
+
+impl Ty {
+    pub fn prim(p: &'static str) -> Ty {
+        Ty::Prim(p)
+    }
+    pub fn user(n: &str) -> Ty {
+        Ty::User(n.to_string(), vec![])
+    }
+    pub fn depth(&self) -> usize {
+        match self {
+            Ty::Vec(t) | Ty::Array(t, _) | Ty::Slice(t) | Ty::Opt(t) | Ty::Wrap(_, t) | Ty::Ref(t) => 1 + t.depth(),
+            Ty::Map(a, b) => 1 + a.depth().max(b.depth()),
+            Ty::User(_, a) | Ty::Tuple(a) => 1 + a.iter().map(|x| x.depth()).max().unwrap_or(0),
+            _ => 0,
+        }
+    }
+    /// strip references and transparent smart pointers at the top
+    pub fn peel(&self) -> &Ty {
+        match self {
+            Ty::Wrap(_, t) | Ty::Ref(t) => t.peel(),
+            other => other,
+        }
+    }
+    pub fn is_option(&self) -> bool {
+        matches!(self.peel(), Ty::Opt(_))
+    }
+    /// user types referenced anywhere inside
+    pub fn user_refs(&self, out: &mut Vec<String>) {
+        match self {
+            Ty::Vec(t) | Ty::Array(t, _) | Ty::Slice(t) | Ty::Opt(t) | Ty::Wrap(_, t) | Ty::Ref(t) => t.user_refs(out),
+            Ty::Map(a, b) => {
+                a.user_refs(out);
+                b.user_refs(out);
+            }
+            Ty::User(n, a) => {
+                out.push(n.clone());
+                for x in a {
+                    x.user_refs(out);
+                }
+            }
+            Ty::Tuple(a) => {
+                for x in a {
+                    x.user_refs(out);
+                }
+            }
+            _ => {}
+        }
+    }
+    pub fn render(&self, rng: &mut Rng, vary: bool) -> String {
+        let q = |rng: &mut Rng, path: &str, name: &str| -> String {
+            if vary && rng.chance(1, 4) {
+                format!("{path}::{name}")
+            } else {
+                name.to_string()
+            }
+        };
+        match self {
+            Ty::Prim("&str") => "&'static str".into(),
+            Ty::Prim("String") => q(rng, "std::string", "String"),
+            Ty::Prim("I54") => q(rng, "typeshare", "I54"),
+            Ty::Prim("U53") => q(rng, "typeshare", "U53"),
+            Ty::Prim(p) => p.to_string(),
+            Ty::Unit => "()".into(),
+            Ty::Vec(t) => format!("{}<{}>", q(rng, "std::vec", "Vec"), t.render(rng, vary)),
+            Ty::Array(t, n) => format!("[{}; {}]", t.render(rng, vary), n),
+            Ty::Slice(t) => format!("&'static [{}]", t.render(rng, vary)),
+            Ty::Opt(t) => format!("{}<{}>", q(rng, "std::option", "Option"), t.render(rng, vary)),
+            Ty::Map(a, b) => format!("{}<{}, {}>", q(rng, "std::collections", "HashMap"), a.render(rng, vary), b.render(rng, vary)),
+            Ty::Wrap("Cow", t) => format!("{}<'static, {}>", q(rng, "std::borrow", "Cow"), t.render(rng, vary)),
+            Ty::Wrap(w, t) => {
+                let path = match *w {
+                    "Box" => "std::boxed",
+                    "Arc" | "Mutex" | "RwLock" | "Weak" => "std::sync",
+                    "Rc" => "std::rc",
+                    _ => "std::cell",
+                };
+                format!("{}<{}>", q(rng, path, w), t.render(rng, vary))
+            }
+            Ty::Ref(t) => format!("&'static {}", t.render(rng, vary)),
+            Ty::User(n, a) if a.is_empty() => n.clone(),
+            Ty::User(n, a) => format!("{}<{}>", n, a.iter().map(|x| x.render(rng, vary)).collect::<Vec<_>>().join(", ")),
+            Ty::Param(p) => p.clone(),
+            Ty::Tuple(a) => format!("({}{})", a.iter().map(|x| x.render(rng, vary)).collect::<Vec<_>>().join(", "), if a.len() == 1 { "," } else { "" }),
+            Ty::DateTime => q(rng, "time", "OffsetDateTime"),
+            Ty::Raw(s) => s.clone(),
+        }
+    }
+    pub fn show(&self) -> String {
+        let mut r = Rng::new(0);
+        self.render(&mut r, false)
+    }
+}
+
+#[derive(Clone, Copy, Debug, PartialEq, Eq)]
+pub enum Skip {
+    No,
+    Serde,
+    Typeshare,
+}
+
+#[derive(Clone, Copy, Debug, PartialEq, Eq)]
+pub enum DocStyle {
+    Line,
+    Block,
+    Attr,
+}
+
+#[derive(Clone, Debug)]
+pub struct Doc {
+    pub text: String,
+    pub style: DocStyle,
+}
+
+#[derive(Clone, Debug)]
+pub struct Field {
+    /// identifier without `r#`
+    pub ident: String,
+    pub raw: bool,
+    pub rename: Option<String>,
+    pub ty: Ty,
+    pub default: bool,
+    pub flatten: bool,
+    pub skip: Skip,
+    pub docs: Vec<Doc>,
+    /// verbatim `cfg(...)` predicates
+    pub cfgs: Vec<String>,
+    /// `#[typeshare(serialized_as = "..")]`
+    pub serialized_as: Option<String>,
+    /// extra verbatim typeshare(...) arguments, e.g. `typescript(readonly)`
+    pub ts_args: Vec<String>,
+    /// extra verbatim attributes
+    pub extra_attrs: Vec<String>,
+}
+
+impl Field {
+    pub fn new(ident: &str, ty: Ty) -> Self {
+        Field { ident: ident.to_string(), raw: false, rename: None, ty, default: false, flatten: false, skip: Skip::No, docs: vec![], cfgs: vec![], serialized_as: None, ts_args: vec![], extra_attrs: vec![] }
+    }
+}
+
+#[derive(Clone, Debug)]
+pub enum VKind {
+    Unit,
+    Newtype(Ty),
+    Struct(Vec<Field>),
+    Tuple(Vec<Ty>),
+}
+
+#[derive(Clone, Debug)]
+pub struct Variant {
+    pub ident: String,
+    pub rename: Option<String>,
+    /// variant-level rename_all (applies to struct-variant fields)
+    pub rename_all: Option<String>,
+    pub kind: VKind,
+    pub skip: Skip,
+    pub docs: Vec<Doc>,
+    pub cfgs: Vec<String>,
+    pub serialized_as: Option<String>,
+}
+
+impl Variant {
+    pub fn new(ident: &str, kind: VKind) -> Self {
+        Variant { ident: ident.to_string(), rename: None, rename_all: None, kind, skip: Skip::No, docs: vec![], cfgs: vec![], serialized_as: None }
+    }
+}
+
+#[derive(Clone, Debug)]
+pub enum Kind {
+    Struct(Vec<Field>),
+    UnitStruct,
+    Newtype(Ty),
+    TupleStruct(Vec<Ty>),
+    Enum { variants: Vec<Variant>, tag: Option<String>, content: Option<String> },
+    Alias(Ty),
+    Const { ty: Ty, expr: String },
+}
+
+#[derive(Clone, Copy, Debug, PartialEq, Eq)]
+pub enum Annot {
+    /// no #[typeshare] at all (decoy)
+    None,
+    Plain,
+    /// `#[typeshare::typeshare]`
+    Qualified,
+}
+
+#[derive(Clone, Debug)]
+pub struct Item {
+    pub ident: String,
+    pub kind: Kind,
+    pub rename: Option<String>,
+    pub rename_all: Option<String>,
+    pub generics: Vec<String>,
+    pub annot: Annot,
+    pub docs: Vec<Doc>,
+    pub cfgs: Vec<String>,
+    /// arguments inside #[typeshare(...)]: `swift = "Equatable"`, `redacted`, `serialized_as = ".."` ...
+    pub ts_args: Vec<String>,
+    pub serialized_as: Option<String>,
+    /// nested module path inside the file
+    pub mods: Vec<String>,
+    pub derives: bool,
+}
+
+impl Item {
+    pub fn new(ident: &str, kind: Kind) -> Self {
+        Item { ident: ident.to_string(), kind, rename: None, rename_all: None, generics: vec![], annot: Annot::Plain, docs: vec![], cfgs: vec![], ts_args: vec![], serialized_as: None, mods: vec![], derives: true }
+    }
+    pub fn is_annotated(&self) -> bool {
+        self.annot != Annot::None
+    }
+    /// user types this item refers to through non-skipped parts
+    pub fn refs(&self) -> Vec<String> {
+        let mut out = vec![];
+        match &self.kind {
+            Kind::Struct(fs) => {
+                for f in fs.iter().filter(|f| f.skip == Skip::No) {
+                    f.ty.user_refs(&mut out);
+                }
+            }
+            Kind::Newtype(t) | Kind::Alias(t) => t.user_refs(&mut out),
+            Kind::TupleStruct(ts) => {
+                for t in ts {
+                    t.user_refs(&mut out);
+                }
+            }
+            Kind::Enum { variants, .. } => {
+                for v in variants.iter().filter(|v| v.skip == Skip::No) {
+                    match &v.kind {
+                        VKind::Unit => {}
+                        VKind::Newtype(t) => t.user_refs(&mut out),
+                        VKind::Struct(fs) => {
+                            for f in fs.iter().filter(|f| f.skip == Skip::No) {
+                                f.ty.user_refs(&mut out);
+                            }
+                        }
+                        VKind::Tuple(ts) => {
+                            for t in ts {
+                                t.user_refs(&mut out);
+                            }
+                        }
+                    }
+                }
+            }
+            Kind::Const { ty, .. } => ty.user_refs(&mut out),
+            Kind::UnitStruct => {}
+        }
+        out
+    }
+}
+
+/// How the text is rendered; everything here must not matter to typeshare.
+#[derive(Clone, Debug)]
+pub struct RenderOpts {
+    /// vary attribute order, merged vs separate serde attributes, path qualification, whitespace
+    pub vary: bool,
+    /// include `use` lines and derives so that the program is plausible Rust
+    pub prelude: bool,
+    /// render without any typeshare attribute (stripped twin / serde oracle)
+    pub strip_typeshare: bool,
+}
+
+impl Default for RenderOpts {
+    fn default() -> Self {
+        RenderOpts { vary: true, prelude: true, strip_typeshare: false }
+    }
+}
+
+fn esc(s: &str) -> String {
+    let mut o = String::new();
+    for c in s.chars() {
+        match c {
+            '"' => o.push_str("\\\""),
+            '\\' => o.push_str("\\\\"),
+            '\n' => o.push_str("\\n"),
+            '\r' => o.push_str("\\r"),
+            '\t' => o.push_str("\\t"),
+            c => o.push(c),
+        }
+    }
+    o
+}
+
+pub fn render_docs(docs: &[Doc], ind: &str, out: &mut String) {
+    for d in docs {
+        match d.style {
+            DocStyle::Line if !d.text.contains('\n') => {
+                out.push_str(&format!("{ind}///{}\n", d.text));
+            }
+            DocStyle::Block if !d.text.contains("*/") && !d.text.contains("/*") => {
+                out.push_str(&format!("{ind}/**{}*/\n", d.text));
+            }
+            _ => {
+                out.push_str(&format!("{ind}#[doc = \"{}\"]\n", esc(&d.text)));
+            }
+        }
+    }
+}
+
+fn serde_attr(parts: &[String], rng: &mut Rng, vary: bool, ind: &str, out: &mut String) {
+    if parts.is_empty() {
+        return;
+    }
+    let mut parts = parts.to_vec();
+    if vary {
+        rng.shuffle(&mut parts);
+    }
+    if vary && parts.len() > 1 && rng.coin() {
+        for p in parts {
+            out.push_str(&format!("{ind}#[serde({p})]\n"));
+        }
+    } else {
+        out.push_str(&format!("{ind}#[serde({})]\n", parts.join(", ")));
+    }
+}
+
+fn field_attrs(f: &Field, o: &RenderOpts, rng: &mut Rng, ind: &str, out: &mut String) {
+    render_docs(&f.docs, ind, out);
+    for c in &f.cfgs {
+        out.push_str(&format!("{ind}#[cfg({c})]\n"));
+    }
+    let mut blocks: Vec<String> = vec![];
+    let mut serde = vec![];
+    if let Some(r) = &f.rename {
+        serde.push(format!("rename = \"{}\"", esc(r)));
+    }
+    if f.default {
+        serde.push("default".to_string());
+    }
+    if f.flatten {
+        serde.push("flatten".to_string());
+    }
+    if f.skip == Skip::Serde {
+        serde.push("skip".to_string());
+    }
+    let mut s = String::new();
+    serde_attr(&serde, rng, o.vary, ind, &mut s);
+    if !s.is_empty() {
+        blocks.push(s);
+    }
+    if !o.strip_typeshare {
+        let mut ts = f.ts_args.clone();
+        if f.skip == Skip::Typeshare {
+            ts.push("skip".into());
+        }
+        if let Some(sa) = &f.serialized_as {
+            ts.push(format!("serialized_as = \"{}\"", esc(sa)));
+        }
+        if !ts.is_empty() {
+            if o.vary {
+                rng.shuffle(&mut ts);
+            }
+            blocks.push(format!("{ind}#[typeshare({})]\n", ts.join(", ")));
+        }
+    } else if f.skip == Skip::Typeshare {
+        blocks.push(format!("{ind}#[serde(skip)]\n"));
+    }
+    for a in &f.extra_attrs {
+        blocks.push(format!("{ind}{a}\n"));
+    }
+    if o.vary {
+        rng.shuffle(&mut blocks);
+    }
+    for b in blocks {
+        out.push_str(&b);
+    }
+}
+
+fn render_field(f: &Field, o: &RenderOpts, rng: &mut Rng, ind: &str, out: &mut String) {
+    field_attrs(f, o, rng, ind, out);
+    let vis = if o.vary {
+        *rng.pick(&["pub ", "", "pub(crate) "])
+    } else {
+        "pub "
+    };
+    out.push_str(&format!("{ind}{vis}{}{}: {},\n", if f.raw { "r#" } else { "" }, f.ident, f.ty.render(rng, o.vary)));
+}
+
+pub fn render_item(it: &Item, o: &RenderOpts, rng: &mut Rng, out: &mut String) {
+    let ind = "    ".repeat(it.mods.len());
+    render_docs(&it.docs, &ind, out);
+    let mut blocks: Vec<String> = vec![];
+    for c in &it.cfgs {
+        blocks.push(format!("{ind}#[cfg({c})]\n"));
+    }
+    // the typeshare attribute
+    if it.annot != Annot::None && !o.strip_typeshare {
+        let mut args = it.ts_args.clone();
+        if let Some(sa) = &it.serialized_as {
+            args.push(format!("serialized_as = \"{}\"", esc(sa)));
+        }
+        let path = if it.annot == Annot::Qualified { "typeshare::typeshare" } else { "typeshare" };
+        if args.is_empty() {
+            blocks.push(format!("{ind}#[{path}]\n"));
+        } else {
+            blocks.push(format!("{ind}#[{path}({})]\n", args.join(", ")));
+        }
+    }
+    let is_type = !matches!(it.kind, Kind::Alias(_) | Kind::Const { .. });
+    if is_type && it.derives {
+        blocks.push(format!("{ind}#[derive(Serialize)]\n"));
+    }
+    let mut serde = vec![];
+    if let Some(r) = &it.rename {
+        serde.push(format!("rename = \"{}\"", esc(r)));
+    }
+    if let Some(r) = &it.rename_all {
+        serde.push(format!("rename_all = \"{}\"", esc(r)));
+    }
+    if let Kind::Enum { tag, content, .. } = &it.kind {
+        if let Some(t) = tag {
+            serde.push(format!("tag = \"{}\"", esc(t)));
+        }
+        if let Some(c) = content {
+            serde.push(format!("content = \"{}\"", esc(c)));
+        }
+    }
+    if is_type {
+        let mut s = String::new();
+        serde_attr(&serde, rng, o.vary, &ind, &mut s);
+        if !s.is_empty() {
+            blocks.push(s);
+        }
+    }
+    // derive must precede serde helper attributes for rustc; keep relative order of those two, vary the rest
+    if o.vary && !is_type {
+        rng.shuffle(&mut blocks);
+    } else if o.vary {
+        // move the typeshare attribute to a random position
+        if let Some(p) = blocks.iter().position(|b| b.contains("#[typeshare")) {
+            let b = blocks.remove(p);
+            let at = rng.below(blocks.len() + 1);
+            blocks.insert(at, b);
+        }
+    }
+    for b in blocks {
+        out.push_str(&b);
+    }
+    let gens = if it.generics.is_empty() { String::new() } else { format!("<{}>", it.generics.join(", ")) };
+    match &it.kind {
+        Kind::Struct(fs) => {
+            out.push_str(&format!("{ind}pub struct {}{} {{\n", it.ident, gens));
+            for f in fs {
+                render_field(f, o, rng, &format!("{ind}    "), out);
+            }
+            out.push_str(&format!("{ind}}}\n"));
+        }
+        Kind::UnitStruct => out.push_str(&format!("{ind}pub struct {}{};\n", it.ident, gens)),
+        Kind::Newtype(t) => out.push_str(&format!("{ind}pub struct {}{}(pub {});\n", it.ident, gens, t.render(rng, o.vary))),
+        Kind::TupleStruct(ts) => {
+            let inner: Vec<String> = ts.iter().map(|t| t.render(rng, o.vary)).collect();
+            out.push_str(&format!("{ind}pub struct {}{}({});\n", it.ident, gens, inner.join(", ")));
+        }
+        Kind::Enum { variants, .. } => {
+            out.push_str(&format!("{ind}pub enum {}{} {{\n", it.ident, gens));
+            let vind = format!("{ind}    ");
+            for v in variants {
+                render_docs(&v.docs, &vind, out);
+                for c in &v.cfgs {
+                    out.push_str(&format!("{vind}#[cfg({c})]\n"));
+                }
+                let mut serde = vec![];
+                if let Some(r) = &v.rename {
+                    serde.push(format!("rename = \"{}\"", esc(r)));
+                }
+                if let Some(r) = &v.rename_all {
+                    serde.push(format!("rename_all = \"{}\"", esc(r)));
+                }
+                if v.skip == Skip::Serde || (v.skip == Skip::Typeshare && o.strip_typeshare) {
+                    serde.push("skip".into());
+                }
+                serde_attr(&serde, rng, o.vary, &vind, out);
+                if !o.strip_typeshare {
+                    let mut ts = vec![];
+                    if v.skip == Skip::Typeshare {
+                        ts.push("skip".to_string());
+                    }
+                    if let Some(sa) = &v.serialized_as {
+                        ts.push(format!("serialized_as = \"{}\"", esc(sa)));
+                    }
+                    if !ts.is_empty() {
+                        out.push_str(&format!("{vind}#[typeshare({})]\n", ts.join(", ")));
+                    }
+                }
+                match &v.kind {
+                    VKind::Unit => out.push_str(&format!("{vind}{},\n", v.ident)),
+                    VKind::Newtype(t) => out.push_str(&format!("{vind}{}({}),\n", v.ident, t.render(rng, o.vary))),
+                    VKind::Tuple(ts) => {
+                        let inner: Vec<String> = ts.iter().map(|t| t.render(rng, o.vary)).collect();
+                        out.push_str(&format!("{vind}{}({}),\n", v.ident, inner.join(", ")));
+                    }
+                    VKind::Struct(fs) => {
+                        out.push_str(&format!("{vind}{} {{\n", v.ident));
+                        for f in fs {
+                            // fields of struct variants have no visibility
+                            let find = format!("{vind}    ");
+                            field_attrs(f, o, rng, &find, out);
+                            out.push_str(&format!("{find}{}{}: {},\n", if f.raw { "r#" } else { "" }, f.ident, f.ty.render(rng, o.vary)));
+                        }
+                        out.push_str(&format!("{vind}}},\n"));
+                    }
+                }
+            }
+            out.push_str(&format!("{ind}}}\n"));
+        }
+        Kind::Alias(t) => out.push_str(&format!("{ind}pub type {}{} = {};\n", it.ident, gens, t.render(rng, o.vary))),
+        Kind::Const { ty, expr } => out.push_str(&format!("{ind}pub const {}: {} = {};\n", it.ident, ty.render(rng, o.vary), expr)),
+    }
+}
+
+/// Render a file: items grouped into their nested `mod` blocks, in the given order.
+pub fn render_file(items: &[Item], inner_attrs: &[String], uses: &[String], o: &RenderOpts, rng: &mut Rng) -> String {
+    let mut out = String::new();
+    for a in inner_attrs {
+        out.push_str(&format!("#![{a}]\n"));
+    }
+    if o.prelude {
+        out.push_str("#![allow(dead_code, unused_imports)]\nuse serde::Serialize;\n");
+        if !o.strip_typeshare {
+            out.push_str("use typeshare::typeshare;\n");
+        }
+        out.push_str("use std::collections::HashMap;\nuse std::{borrow::Cow, boxed::Box, cell::{Cell, RefCell}, rc::{Rc, Weak}, sync::{Arc, Mutex, RwLock}};\n");
+    }
+    for u in uses {
+        out.push_str(&format!("use {u};\n"));
+    }
+    out.push('\n');
+    let mut open: Vec<String> = vec![];
+    for it in items {
+        // close / open modules to reach it.mods
+        let mut common = 0;
+        while common < open.len() && common < it.mods.len() && open[common] == it.mods[common] {
+            common += 1;
+        }
+        while open.len() > common {
+            open.pop();
+            out.push_str(&format!("{}}}\n", "    ".repeat(open.len())));
+        }
+        while open.len() < it.mods.len() {
+            let m = &it.mods[open.len()];
+            out.push_str(&format!("{}pub mod {} {{\n", "    ".repeat(open.len()), m));
+            if o.prelude {
+                out.push_str(&format!("{}use super::*;\n", "    ".repeat(open.len() + 1)));
+            }
+            open.push(m.clone());
+        }
+        render_item(it, o, rng, &mut out);
+        out.push('\n');
+    }
+    while !open.is_empty() {
+        open.pop();
+        out.push_str(&format!("{}}}\n", "    ".repeat(open.len())));
+    }
+    out
+}
